@@ -56,7 +56,7 @@ func runR122(c *Ctx) {
 				}
 				invariant := true
 				for _, a := range call.Call.Args {
-					if !loopInvariant(li, a, 0) {
+					if !loopInvariant(li, a, 0) || r122StateAdvancedInLoop(li, a) {
 						invariant = false
 						break
 					}
@@ -72,6 +72,32 @@ func runR122(c *Ctx) {
 	if n == 0 {
 		c.undecided("scope|fallible calls", "-", "no call of a fallible module function found in scope")
 	}
+}
+
+// r122StateAdvancedInLoop: the argument is a pointer to an object on which the loop itself calls methods (a reader
+// advanced by Next() in the loop condition): the same pointer denotes a different state in every iteration, so a
+// call that inspects that state is not a validation of fixed arguments.
+func r122StateAdvancedInLoop(li loopInfo, a ssa.Value) bool {
+	if _, ok := a.Type().Underlying().(*types.Pointer); !ok {
+		return false
+	}
+	root := rootValue(a)
+	found := false
+	for _, b := range li.header.Parent().Blocks {
+		if !inLoop(li, b) && b != li.header {
+			continue
+		}
+		for _, in := range b.Instrs {
+			ci, ok := in.(ssa.CallInstruction)
+			if !ok {
+				continue
+			}
+			if r := recvOf(ci); r != nil && rootValue(r) == root {
+				found = true
+			}
+		}
+	}
+	return found
 }
 
 // loopInvariant: v does not change between iterations of li (defined outside it, or computed inside from
@@ -988,7 +1014,9 @@ func runR129(c *Ctx) {
 		if okIf == nil {
 			return
 		}
-		key := fname(fn) + "|case " + types.TypeString(ta.AssertedType, shortQual)
+		// keyed by the construct, not by the function's name: the known finding F1 stays the same finding when the
+		// switch is moved into a helper
+		key := "zero-argument apply|case " + types.TypeString(ta.AssertedType, shortQual)
 		consults := false
 		for _, blk := range fn.Blocks {
 			if !edgeDominates(okIf.Block(), 0, blk) {
@@ -1656,6 +1684,13 @@ func runR136(c *Ctx) {
 					for _, e := range t.Edges {
 						back(e, d+1)
 					}
+				case *ssa.MakeSlice:
+					// a copy made by make + copy(dst, param)
+					for _, r := range *t.Referrers() {
+						if cp, ok := r.(*ssa.Call); ok && builtinName(cp) == "copy" && cp.Call.Args[0] == ssa.Value(t) {
+							back(cp.Call.Args[1], d+1)
+						}
+					}
 				}
 			}
 			back(li.base, 0)
@@ -1679,6 +1714,83 @@ func runR136(c *Ctx) {
 				c.ok(key, p.instrPos(mu), "a declared value that is already in the map is rejected")
 			} else {
 				c.bad(key, p.instrPos(mu), "the declared values are entered into the value map without a test that the value is new: a list naming a value twice gives that value two codes, the cells get the last one and the filters look for the first (`= a` and `< b` silently match nothing)")
+			}
+		})
+	}
+	// the same through the minting helper: inside a loop over the declared values a method is called with the
+	// element, and that method (or one it calls) enters its string parameter into a value map
+	entersParam := func(callee *ssa.Function) bool {
+		found := false
+		var scan func(f *ssa.Function, prm *ssa.Parameter, d int)
+		scan = func(f *ssa.Function, prm *ssa.Parameter, d int) {
+			if f == nil || f.Blocks == nil || d > 2 || found {
+				return
+			}
+			eachInstr(f, func(in ssa.Instruction) {
+				switch t := in.(type) {
+				case *ssa.MapUpdate:
+					if mt, ok := t.Map.Type().Underlying().(*types.Map); ok {
+						if nn, ok := mt.Elem().(*types.Named); ok && nn.Obj() == ev.Obj() && stripConv(t.Key) == ssa.Value(prm) {
+							found = true
+						}
+					}
+				case *ssa.Call:
+					if g := t.Call.StaticCallee(); g != nil && g.Pkg == f.Pkg && g != f {
+						for i, a := range t.Call.Args {
+							if stripConv(a) == ssa.Value(prm) && i < len(g.Params) {
+								scan(g, g.Params[i], d+1)
+							}
+						}
+					}
+				}
+			})
+		}
+		for _, prm := range callee.Params {
+			if b, ok := prm.Type().Underlying().(*types.Basic); ok && b.Kind() == types.String {
+				scan(callee, prm, 0)
+			}
+		}
+		return found
+	}
+	for _, fn := range p.FuncsIn("internal/ecolumn") {
+		loops := loopsOf(fn)
+		eachInstr(fn, func(in ssa.Instruction) {
+			call, ok := in.(*ssa.Call)
+			if !ok || !isDeclaredRegistration(call) {
+				return
+			}
+			callee := call.Call.StaticCallee()
+			if callee == nil || !entersParam(callee) {
+				return
+			}
+			_ = loops
+			n++
+			key := fname(fn) + "|declared value entered"
+			guarded := false
+			for _, g := range dominatingGuards(call.Block()) {
+				ex, ok := g.Cond.(*ssa.Extract)
+				if !ok || ex.Index != 1 || g.Val {
+					continue
+				}
+				lk, ok := ex.Tuple.(*ssa.Lookup)
+				if !ok || !lk.CommaOk {
+					continue
+				}
+				if mt, ok := lk.X.Type().Underlying().(*types.Map); ok {
+					if nn, ok := mt.Elem().(*types.Named); !ok || nn.Obj() != ev.Obj() {
+						continue
+					}
+				}
+				for _, a := range call.Call.Args {
+					if stripConv(lk.Index) == stripConv(a) {
+						guarded = true
+					}
+				}
+			}
+			if guarded {
+				c.ok(key, p.instrPos(call), "a declared value that is already in the map is rejected before it is registered")
+			} else {
+				c.bad(key, p.instrPos(call), "the declared values are registered one by one without a test that the value is new: a list naming a value twice gives that value two codes, the cells get the last one and the filters look for the first")
 			}
 		})
 	}
